@@ -1,7 +1,201 @@
+import ElvisVerif.Model.Arp
 import Driver.Common
-/-! Line-protocol handlers for C06 (sub-commands `c06` / `c06-*`). -/
-namespace Driver.C06
+/-! Line-protocol handlers for C06 (sub-command `c06`).
 
-def dispatch (_sub : String) (_i _o : IO.FS.Stream) : Option (IO Unit) := none
+The harness prints the configuration and, in the order the real code produced them, every
+observed event (claims, resolve calls, retry rounds, frames handed to the network with their
+fate, tap deliveries, returns of `resolve`).  Each event is one label (or `tick` + label) of the
+transition system of `Model/Arp.lean`; the driver replays them and prints what the model says
+the real code must have answered. -/
+namespace Driver.C06
+open Elvis.Arp
+
+structure St where
+  net : Net
+  /-- parallel to `net.wire`: has the frame shown up at the network hook yet? -/
+  seen : List Bool
+  /-- harness resolution id → index into `net.resolvers` -/
+  rids : List (Nat × Nat)
+
+def St.empty : St := ⟨init [] 65535, [], []⟩
+
+def showStatus : Status → String
+  | .ok m => s!"ok {m}"
+  | .err => "err"
+
+def parseDst (s : String) : Option (Option Nat) :=
+  if s == "-" then some none else s.toNat?.map some
+
+/-- advance the clock to `t`; `none` when the model does not allow time to pass that far -/
+def advance (st : St) (t : Nat) : Except String St :=
+  if t < st.net.now then .error "time-backwards"
+  else if t == st.net.now then .ok st
+  else
+    let dt := t - st.net.now
+    if st.net.canTick dt then .ok { st with net := step st.net (.tick dt) }
+    else
+      let blockers := (List.range st.net.resolvers.length).filter fun i =>
+        match st.net.resolvers[i]? with
+        | some r => !(r.result.isSome || ((st.net.hit r.mach r.dest).isNone && decide (st.net.now + dt ≤ r.deadline)))
+        | none => false
+      .error s!"time-blocked-by-resolver-index {blockers}"
+
+def frameMatches (f : Frame) (smac : Nat) (dst : Option Nat) (bytes : List UInt8) : Bool :=
+  f.smac == smac && f.dst == dst && build f.pkt == bytes
+
+def findIdx (p : Nat → Bool) (n : Nat) : Option Nat := (List.range n).find? p
+
+def padSeen (st : St) : St :=
+  { st with seen := st.seen ++ List.replicate (st.net.wire.length - st.seen.length) false }
+
+def tapOf (net : Net) (mac : Nat) : Option (Nat × Nat) :=
+  (List.range net.machines.length).findSome? fun k =>
+    match net.machines[k]? with
+    | some m => (m.macs.idxOf? mac).map fun slot => (k, slot)
+    | none => none
+
+def showSubnet : Option Subnet → String
+  | none => ""
+  | some sn => s!"/{sn.mask}/{sn.gateway}"
+
+def insertSorted (x : Nat × String) : List (Nat × String) → List (Nat × String)
+  | [] => [x]
+  | y :: r => if x.1 ≤ y.1 then x :: y :: r else y :: insertSorted x r
+
+def sortPairs (l : List (Nat × String)) : List (Nat × String) := l.foldr insertSorted []
+
+def dumpMachine (m : Machine) : String :=
+  let ips := sortPairs (m.localIps.map fun (ip, sn) => (ip, s!"{ip}{showSubnet sn}"))
+  let tab := sortPairs (m.table.map fun (ip, st) => (ip, s!"{ip}=" ++ (match st with | .ok mac => s!"{mac}" | .err => "err")))
+  "ips[" ++ ",".intercalate (ips.map (·.2)) ++ "] table[" ++ ",".intercalate (tab.map (·.2)) ++ "]"
+
+def stepEv (st : St) (ws : List String) : St × String :=
+  match ws with
+  | ["listen", k, ip] =>
+    match k.toNat?, ip.toNat? with
+    | some k, some ip => ({ st with net := step st.net (.listen k ip) }, "ok")
+    | _, _ => (st, "bad-op")
+  | ["subnet", k, ip, bits, gw] =>
+    match k.toNat?, ip.toNat?, bits.toNat?, gw.toNat? with
+    | some k, some ip, some bits, some gw => ({ st with net := step st.net (.setSubnet k ip bits gw) }, "ok")
+    | _, _, _, _ => (st, "bad-op")
+  | ["resolve", rid, k, loc, remote, slot] =>
+    match rid.toNat?, k.toNat?, loc.toNat?, remote.toNat?, slot.toNat? with
+    | some rid, some k, some loc, some remote, some slot =>
+      let n0 := st.net.resolvers.length
+      let net := step st.net (.resolve k loc remote slot)
+      let st := padSeen { st with net := net, rids := (rid, n0) :: st.rids }
+      match net.panic with
+      | some p => (st, p)
+      | none =>
+        match net.resolvers[n0]? with
+        | some r =>
+          (st, match r.result with
+               | some (s, _) => s!"done {showStatus s}"
+               | none => s!"pending {r.dest}")
+        | none => (st, "no-such-machine")
+    | _, _, _, _, _ => (st, "bad-op")
+  | ["round", rid] =>
+    match rid.toNat?.bind fun rid => st.rids.lookup rid with
+    | some i =>
+      let before := st.net.resolvers[i]?
+      let net := step st.net (.timeout i)
+      let st := padSeen { st with net := net }
+      match before, net.resolvers[i]? with
+      | some r0, some r1 =>
+        if r0.result.isNone && r1.result.isNone && r1.sent == r0.sent + 1 then
+          (st, s!"request {r1.loc} {r1.dest} {r0.sent}")
+        else match r1.result with
+          | some (s, _) => (st, s!"done {showStatus s}")
+          | none => (st, "not-enabled")
+      | _, _ => (st, "bad-rid")
+    | none => (st, "bad-rid")
+  | ["done", rid] =>
+    match rid.toNat?.bind fun rid => st.rids.lookup rid with
+    | some i =>
+      match st.net.resolvers[i]? with
+      | some r0 =>
+        if r0.result.isSome then (st, "already-done") else
+        -- a waiter that finds an answer reads it; otherwise only the last time-out can end the call
+        let net := if (st.net.hit r0.mach r0.dest).isSome then step st.net (.wake i) else step st.net (.timeout i)
+        let st := padSeen { st with net := net }
+        match net.resolvers[i]? with
+        | some r1 =>
+          (st, match r1.result with
+               | some (s, _) => s!"done {showStatus s}"
+               | none => if r1.sent == r0.sent then "not-enabled" else "sends-instead")
+        | none => (st, "bad-rid")
+      | none => (st, "bad-rid")
+    | none => (st, "bad-rid")
+  | ["send", smac, dst, bytes, plan] =>
+    match smac.toNat?, parseDst dst, parseHex bytes with
+    | some smac, some dst, some bytes =>
+      let st := padSeen st
+      match findIdx (fun i => match st.net.wire[i]?, st.seen[i]? with
+                              | some f, some false => frameMatches f smac dst bytes
+                              | _, _ => false) st.net.wire.length with
+      | some i =>
+        let st := { st with seen := st.seen.set i true }
+        if plan == "drop" then ({ st with net := step st.net (.lose i) }, "ok") else (st, "ok")
+      | none => (st, "unexpected-frame")
+    | _, _, _ => (st, "bad-op")
+  | ["deliver", smac, dst, bytes, tomac] =>
+    match smac.toNat?, parseDst dst, parseHex bytes, tomac.toNat? with
+    | some smac, some dst, some bytes, some tomac =>
+      let st := padSeen st
+      match findIdx (fun i => match st.net.wire[i]?, st.seen[i]? with
+                              | some f, some true => !f.lost && frameMatches f smac dst bytes
+                              | _, _ => false) st.net.wire.length, tapOf st.net tomac with
+      | some i, some (k, slot) =>
+        match st.net.wire[i]? with
+        | some f =>
+          -- `Arp::demux` parses the bytes: the model's parser must recover the packet
+          if (match fromBytes bytes with | .ok p => p != f.pkt | .error _ => true) then (st, "parse-mismatch")
+          else if f.dst == none || f.dst == some Elvis.Gen.Arp.broadcastMac || f.dst == some tomac then
+            (padSeen { st with net := step st.net (.deliver i k slot) }, "ok")
+          else (st, "misdelivered")
+        | none => (st, "no-such-frame")
+      | none, _ => (st, "no-such-frame")
+      | _, none => (st, "no-such-tap")
+    | _, _, _, _ => (st, "bad-op")
+  | _ => (st, "bad-op")
+
+def step (st : St) (ws : List String) : St × String :=
+  match ws with
+  | ["case", id] => (St.empty, s!"case {id}")
+  | "cfg" :: _ => (st, "cfg")
+  | ["init", mtu, slots] =>
+    let mtu := if mtu == "-" then some 65535 else mtu.toNat?
+    match mtu, (slots.splitOn ",").mapM (·.toNat?) with
+    | some mtu, some slots =>
+      let net := init slots mtu
+      (⟨net, [], []⟩, "macs " ++ ";".intercalate (net.machines.map fun m => ",".intercalate (m.macs.map toString)))
+    | _, _ => (st, "bad-op")
+  | "at" :: t :: rest =>
+    match t.toNat? with
+    | some t =>
+      match advance st t with
+      | .ok st => stepEv st rest
+      | .error e => (st, e)
+    | none => (st, "bad-op")
+  | ["end", t] =>
+    match t.toNat? with
+    | some t =>
+      match advance st t with
+      | .ok st =>
+        let st := padSeen st
+        let pend := st.rids.reverse.filterMap fun (rid, i) =>
+          match st.net.resolvers[i]? with
+          | some r => if r.result.isNone then some (toString rid) else none
+          | none => none
+        let unseen := (st.seen.filter (· == false)).length
+        (st, "end " ++ " | ".intercalate (st.net.machines.map dumpMachine) ++
+             s!" pending[{",".intercalate pend}] unseen={unseen}")
+      | .error e => (st, e)
+    | none => (st, "bad-op")
+  | _ => (st, "bad-op")
+
+def dispatch (sub : String) (i o : IO.FS.Stream) : Option (IO Unit) :=
+  if sub == "c06" then some (Driver.loop i o step St.empty) else none
 
 end Driver.C06
